@@ -146,6 +146,12 @@ def handleStages (j : Json) : Except String Json := do
   pure (Json.mkObj [("stages", Json.arr (stages.toArray.map natListJ)),
                     ("trained", natListJ s.trained.reverse), ("included", natListJ s.included.reverse),
                     ("topo", Json.bool (topoLB g [] nodes)),
+                    ("route_faults", Json.arr ((routeFaults g nodes).toArray.map fun f =>
+                      match f with
+                      | .order c => Json.mkObj [("kind", Json.str "order"), ("node", Json.num (JsonNumber.fromNat c))]
+                      | .missing c => Json.mkObj [("kind", Json.str "missing"), ("node", Json.num (JsonNumber.fromNat c))]
+                      | .overwrite c => Json.mkObj [("kind", Json.str "overwrite"), ("node", Json.num (JsonNumber.fromNat c))]
+                      | .noTrainData v => Json.mkObj [("kind", Json.str "no_train_data"), ("node", Json.num (JsonNumber.fromNat v))])),
                     ("all_trained", Json.bool ((nodes.filter g.offline).all fun v => s.trained.contains v))])
 
 end Drv
